@@ -90,6 +90,7 @@ class LoopVC:
         src = textwrap.dedent(inspect.getsource(self.func))
         self.node = ast.parse(src).body[0]
         self.safety = []  # (pc, condition that must hold, description)
+        self.assumed = []  # (marker, formula): hypotheses introduced while executing (inner invariants, list concatenation)
         self.fresh = 0
         self.filename = inspect.getsourcefile(self.func)
         self.firstline = self.func.__code__.co_firstlineno
@@ -193,9 +194,14 @@ class LoopVC:
         if isinstance(e, ast.BinOp):
             a, b = self.ev(e.left, st, pc), self.ev(e.right, st, pc)
             if isinstance(a, SList) and isinstance(b, SList) and isinstance(e.op, ast.Add):
+                # a + b on lists: a fresh array with its two defining axioms as global hypotheses (conservative: the
+                # array is new); the second, shifted form gives the solver the instance cat[len(a) + m] for a member b[m]
                 self.fresh += 1
-                mm = z3.Int(f"cat!{self.fresh}")
-                return SList(z3.Lambda([mm], z3.If(mm < a.len, z3.Select(a.arr, mm), z3.Select(b.arr, mm - a.len))), a.len + b.len)
+                cat = z3.Array(f"cat!{self.fresh}", I, I)
+                mm, m2 = z3.Int(f"catm!{self.fresh}"), z3.Int(f"catn!{self.fresh}")
+                self.assumed.append((z3.BoolVal(True), z3.ForAll([mm], z3.Select(cat, mm) == z3.If(mm < a.len, z3.Select(a.arr, mm), z3.Select(b.arr, mm - a.len)))))
+                self.assumed.append((z3.BoolVal(True), z3.ForAll([m2], z3.Implies(z3.And(0 <= m2, m2 < b.len), z3.Select(cat, a.len + m2) == z3.Select(b.arr, m2)))))
+                return SList(cat, a.len + b.len)
             a, b = self.num(a), self.num(b)
             if isinstance(e.op, ast.Add):
                 return a + b
